@@ -454,6 +454,9 @@ def r5_domain_len(ctx):
 
 
 def run(ctx):
+    from . import C17
+    C17.r6_target_derivation(ctx)    # the HTTP front-end: which host:port a request names (absolute form, Host header, default ports)
+    C17.r7_parsing_totality(ctx)
     r1_port_dependence(ctx)
     r2_byte_order(ctx)
     r3_atyp_tables(ctx)
